@@ -356,6 +356,10 @@ func streamGen(c *Ctx) {
 	files = append(files, genFile{pkg: "", goPackage: "example.com/gen/nopkg;nopkg", services: []genService{{name: "Svc", methods: []genMethod{{name: "Do"}, {name: "list_things", ss: true}, {name: "fetchItem", cs: true}, {name: "Chat", cs: true, ss: true}}}}})
 	files = append(files, genFile{pkg: "single", goPackage: "example.com/gen/single", services: []genService{{name: "A", methods: []genMethod{{name: "X"}}}, {name: "B", methods: []genMethod{{name: "Y", dep: true}}, dep: true}, {name: "C_d", methods: []genMethod{{name: "z_z"}}}}, comments: true})
 	files = append(files, genFile{pkg: "a.b.c", goPackage: "example.com/gen/abc;abc", services: nil})
+	// a service without methods next to an ordinary one (valid; nothing in the generated
+	// constructors may depend on there being a method)
+	files = append(files, genFile{pkg: "z.v1", goPackage: "example.com/gen/z/v1;zv1", services: []genService{{name: "Greeter", methods: []genMethod{{name: "Hello"}}}, {name: "Admin"}}})
+	files = append(files, genFile{pkg: "z.v2", goPackage: "example.com/gen/z/v2;zv2", services: []genService{{name: "Empty"}}})
 	n := 20
 	if c.Thorough() {
 		n = 200
@@ -389,8 +393,57 @@ func streamGen(c *Ctx) {
 	for i, f := range files {
 		genCheckFile(c, f, outDir, i)
 	}
+	genMultiFileProbe(c)
 	typecheckGenerated(c, outDir)
 	checkedInOutput(c)
+}
+
+// genMultiFileProbe: one request naming several files - a file with only messages before the
+// file with the service (protoc passes them in the order given on its command line): every
+// service file gets its output, whatever stands in front of it.
+func genMultiFileProbe(c *Ctx) {
+	empty := protodesc.ToFileDescriptorProto((&emptypb.Empty{}).ProtoReflect().Descriptor().ParentFile())
+	types := &descriptorpb.FileDescriptorProto{
+		Name: proto.String("dir/a_types.proto"), Syntax: proto.String("proto3"), Package: proto.String("multi.v1"),
+		Options:     &descriptorpb.FileOptions{GoPackage: proto.String("example.com/gen/multi/v1;multiv1")},
+		MessageType: []*descriptorpb.DescriptorProto{{Name: proto.String("Thing")}},
+	}
+	mkSvc := func(file, svc string) *descriptorpb.FileDescriptorProto {
+		return &descriptorpb.FileDescriptorProto{
+			Name: proto.String(file), Syntax: proto.String("proto3"), Package: proto.String("multi.v1"),
+			Dependency: []string{"google/protobuf/empty.proto"},
+			Options:    &descriptorpb.FileOptions{GoPackage: proto.String("example.com/gen/multi/v1;multiv1")},
+			Service: []*descriptorpb.ServiceDescriptorProto{{Name: proto.String(svc), Method: []*descriptorpb.MethodDescriptorProto{{
+				Name: proto.String("Hello"), InputType: proto.String(".google.protobuf.Empty"), OutputType: proto.String(".google.protobuf.Empty")}}}},
+		}
+	}
+	b, d := mkSvc("dir/b_service.proto", "Greeter"), mkSvc("dir/d_service.proto", "Other")
+	for _, order := range [][]string{{"dir/a_types.proto", "dir/b_service.proto"}, {"dir/b_service.proto", "dir/a_types.proto", "dir/d_service.proto"}, {"dir/a_types.proto", "dir/b_service.proto", "dir/d_service.proto"}} {
+		desc := "one request for files " + strings.Join(order, ", ")
+		res, err := runPlugin(&pluginpb.CodeGeneratorRequest{FileToGenerate: order, ProtoFile: []*descriptorpb.FileDescriptorProto{empty, types, b, d}})
+		c.Count("gen-multi-file")
+		if err != nil || res.Error != nil {
+			c.Fail("gen-plugin-failed", desc, fmt.Sprint(err, res.GetError()), "the generator failed on a valid request")
+			continue
+		}
+		wantFiles := 0
+		for _, f := range order {
+			if strings.Contains(f, "_service") {
+				wantFiles++
+			}
+		}
+		var names []string
+		paths := 0
+		for _, f := range res.File {
+			names = append(names, f.GetName())
+			if strings.Contains(f.GetContent(), "/multi.v1.Greeter/Hello") || strings.Contains(f.GetContent(), "/multi.v1.Other/Hello") {
+				paths++
+			}
+		}
+		if len(res.File) != wantFiles || paths != wantFiles {
+			c.Fail("gen-file-count", desc, fmt.Sprintf("%d files %v, %d with their procedure path", len(res.File), names, paths), fmt.Sprintf("every file with services gets its generated file (%d expected)", wantFiles))
+		}
+	}
 }
 
 // typecheckGenerated builds all generated packages against the library in one `go build`.
